@@ -28,7 +28,15 @@ import (
 	"github.com/LiskHQ/lisk-engine/pkg/trie/rmt"
 )
 
-const BlockTime = uint32(100000) // seconds per slot: real time stays mid-slot for the whole run
+var BlockTime = uint32(100000) // seconds per slot: real time stays mid-slot for the whole run (cmd/recv sets a few seconds: moving clock)
+
+// tsOffset: seconds past the start of its slot at which a built block is stamped
+func tsOffset() uint32 {
+	if BlockTime/2 < 7 {
+		return BlockTime / 2
+	}
+	return 7
+}
 
 type Val struct {
 	ID      int
@@ -53,6 +61,9 @@ type Config struct {
 	Now     int        `json:"now"` // slot in which real time lies
 	MaxTxs  uint32     `json:"maxTxs"`
 	Network bool       `json:"network"` // start the libp2p connection (needed when a block may be routed into sync)
+	// AfterEvent (C15, optional, default off): the toy application also emits one event from AfterTransactionsExecute
+	// (generation and validation), and Build covers it in the event root
+	AfterEvent bool `json:"afterEvent,omitempty"`
 }
 
 var (
@@ -626,7 +637,7 @@ func (n *Node) Build(c *Cand) *blockchain.Block {
 		panic(err)
 	}
 	hdr := &blockchain.BlockHeader{
-		Version: uint32(c.Version), Timestamp: n.Slot.GetSlotTime(c.Slot) + 7, Height: c.H, PreviousBlockID: prev,
+		Version: uint32(c.Version), Timestamp: n.Slot.GetSlotTime(c.Slot) + tsOffset(), Height: c.H, PreviousBlockID: prev,
 		GeneratorAddress: Validator(c.Gen).Address, TransactionRoot: rmt.CalculateRoot(txIDs), AssetRoot: assets.GetRoot(),
 		EventRoot: eventRoot, StateRoot: NextRoot(tip.Header.StateRoot, c.H, txs, assets), MaxHeightPrevoted: c.Mhp, MaxHeightGenerated: c.Mhg,
 		ImpliesMaxPrevotes: true, ValidatorsHash: next.Hash(), AggregateCommit: n.AggregateCommit(c.Ac.H, c.Ac.Kind, c.Ac.Signers),
@@ -779,6 +790,46 @@ func (n *Node) AutoCand(slot int, ntx int) (*Cand, error) {
 	c := &Cand{Version: 2, H: h, Prev: "tip", Slot: slot, Gen: gen, Signer: gen, Sig: "ok", Mhp: mhpv, Mhg: mhg,
 		TxRoot: "ok", AssetRoot: "ok", EventRoot: "ok", StateRoot: "ok", VHash: "ok", TxStatic: "ok", Payload: "ok", Ntx: ntx, Mut: "none"}
 	c.Ac.H, c.Ac.Kind, c.Ac.Signers = cert, "empty", []int{}
+	return c, nil
+}
+
+// CompetitorCand returns the abstract description of a valid competitor of the current tip (same height, same parent,
+// same maxHeightPrevoted) generated in the given slot by that slot's generator - the block LIP-0014's tie break is about.
+func (n *Node) CompetitorCand(slot int) (*Cand, error) {
+	tip := n.Tip()
+	if tip.Header.Height == 0 {
+		return nil, fmt.Errorf("the genesis block has no competitor")
+	}
+	h := tip.Header.Height
+	store := n.Ex.VerifConsensusStore()
+	gens, err := n.Ex.GetGeneratorKeys(store, h)
+	if err != nil {
+		return nil, err
+	}
+	g := gens[slot%len(gens)]
+	gen := 0
+	for id := 1; id <= n.Cfg.NVal; id++ {
+		if bytes.Equal(Validator(id).Address, g.Address()) {
+			gen = id
+		}
+	}
+	if gen == 0 {
+		return nil, fmt.Errorf("generator of slot %d unknown", slot)
+	}
+	mhg := uint32(0)
+	for x := h - 1; x >= 1; x-- {
+		hd, err := n.Chain.DataAccess().GetBlockHeaderByHeight(x)
+		if err != nil {
+			break
+		}
+		if bytes.Equal(hd.GeneratorAddress, g.Address()) {
+			mhg = x
+			break
+		}
+	}
+	c := &Cand{Version: 2, H: h, Prev: "parent", Slot: slot, Gen: gen, Signer: gen, Sig: "ok", Mhp: tip.Header.MaxHeightPrevoted, Mhg: mhg,
+		TxRoot: "ok", AssetRoot: "ok", EventRoot: "ok", StateRoot: "ok", VHash: "ok", TxStatic: "ok", Payload: "ok", Ntx: 0, Mut: "none"}
+	c.Ac.H, c.Ac.Kind, c.Ac.Signers = tip.Header.AggregateCommit.Height, "empty", []int{}
 	return c, nil
 }
 
